@@ -16,12 +16,24 @@ pub trait EventHandler: Send + 'static { fn handle_event(&mut self, event: Resul
 #[derive(Debug, Clone, Copy)] pub enum RecursiveMode { Recursive, NonRecursive }
 static REG: Mutex<Vec<Option<Box<dyn EventHandler>>>> = Mutex::new(Vec::new());
 pub struct RecommendedWatcher { id: usize, pub watched: Vec<PathBuf> }
-pub fn recommended_watcher<H: EventHandler>(h: H) -> Result<RecommendedWatcher> { let mut r = REG.lock().unwrap(); r.push(Some(Box::new(h))); Ok(RecommendedWatcher { id: r.len() - 1, watched: vec![] }) }
+/// liveness of the watcher objects (a dropped watcher stops its notify thread: no more events)
+static ALIVE: Mutex<Vec<bool>> = Mutex::new(Vec::new());
+pub fn recommended_watcher<H: EventHandler>(h: H) -> Result<RecommendedWatcher> { let mut r = REG.lock().unwrap(); r.push(Some(Box::new(h))); ALIVE.lock().unwrap().push(true); Ok(RecommendedWatcher { id: r.len() - 1, watched: vec![] }) }
 pub trait Watcher { fn watch(&mut self, path: &Path, mode: RecursiveMode) -> Result<()>; }
 impl Watcher for RecommendedWatcher { fn watch(&mut self, path: &Path, _m: RecursiveMode) -> Result<()> { self.watched.push(path.to_owned()); Ok(()) } }
-impl Drop for RecommendedWatcher { fn drop(&mut self) { if let Ok(mut r) = REG.try_lock() { r[self.id] = None; } } }
-pub fn stub_inject(id: usize, ev: Event) { let h = REG.lock().unwrap()[id].take(); if let Some(mut h) = h { h.handle_event(Ok(ev)); let mut r = REG.lock().unwrap(); if r[id].is_none() { r[id] = Some(h); } } }
-pub fn stub_reset() { REG.lock().unwrap().clear(); }
+impl Drop for RecommendedWatcher { fn drop(&mut self) { if let Some(a) = ALIVE.lock().unwrap().get_mut(self.id) { *a = false; } if let Ok(mut r) = REG.try_lock() { if let Some(slot) = r.get_mut(self.id) { *slot = None; } } } }
+pub fn stub_inject(id: usize, ev: Event) {
+    if !stub_alive(id) { return; }
+    let h = REG.lock().unwrap().get_mut(id).and_then(|s| s.take());
+    if let Some(mut h) = h {
+        h.handle_event(Ok(ev));
+        // the handler may have dropped its own watcher while handling (send failed): then it is gone for good
+        if stub_alive(id) { let mut r = REG.lock().unwrap(); if r[id].is_none() { r[id] = Some(h); } }
+    }
+}
+/// is the watcher with this registration index still alive (not dropped by its owner)?
+pub fn stub_alive(id: usize) -> bool { ALIVE.lock().unwrap().get(id).copied().unwrap_or(false) }
+pub fn stub_reset() { REG.lock().unwrap().clear(); ALIVE.lock().unwrap().clear(); }
 
 /// `notify::event::*` paths, as in the real crate.
 pub mod event {
